@@ -289,7 +289,15 @@ struct any_op final : rcv_iface {
   detail::token_bridge<Tok> tb;
 
   any_op(node_base* n, R&& rr) : r((R &&) rr), tap(tap_new(n->id)) {
-    inner = n->connect_node(bridge{this});
+    try {
+      inner = n->connect_node(bridge{this});
+    } catch (...) {
+      // connecting the subtree threw: this operation state never comes into existence
+      usim::np_scope np;
+      tap->destroyed = true;
+      tap->destroy_seq = seq();
+      throw;
+    }
   }
   any_op(any_op&&) = delete;
   ~any_op() {
